@@ -16,6 +16,7 @@ pub mod c14;
 pub mod c15;
 pub mod c16;
 pub mod c17;
+pub mod c18;
 pub mod sweep;
 
 use crate::run::{Acc, Ctx};
@@ -58,6 +59,7 @@ registry! {
     "C15" => c15,
     "C16" => c16,
     "C17" => c17,
+    "C18" => c18,
 }
 
 use crate::mon::Mon;
